@@ -444,3 +444,37 @@ V("C16", "sort-modifiers-by-name-only", "fire", "C16.R5", "modifiers sorted by n
   (WSF, "sample['modifiers'].sort(key=lambda e: (e['name'], e['type']))", "sample['modifiers'].sort(key=lambda e: e['name'])"))
 V("C16", "sorted-copy-alias", "silent", "", "sorted uses deepcopy via an alias",
   (WSF, "        newspec = copy.deepcopy(dict(workspace))\n", "        payload = dict(workspace)\n        newspec = copy.deepcopy(payload)\n"))
+
+# ------------------------------------------------------------------ C18
+WX, RX = "src/pyhf/writexml.py", "src/pyhf/readxml.py"
+V("C18", "tag-map-swapped", "fire", "C18.R1", "writer swaps the OverallSys/HistoSys tags",
+  (WX, "        'histosys': 'HistoSys',\n        'staterror': 'StatError',\n        'normsys': 'OverallSys',", "        'histosys': 'OverallSys',\n        'staterror': 'StatError',\n        'normsys': 'HistoSys',"))
+V("C18", "reader-type-wrong", "fire", "C18.R1", "reader maps ShapeFactor to normfactor",
+  (RX, "                'name': modtag.attrib['Name'],\n                'type': 'shapefactor',", "                'name': modtag.attrib['Name'],\n                'type': 'normfactor',"))
+V("C18", "writer-attr-renamed", "fire", "C18.R1", "writer emits HistoNameUp instead of HistoNameHigh",
+  (WX, "        attrs['HistoNameHigh'] = _make_hist_name(\n            channelname, samplename, modifierspec['name'], suffix='High'\n        )", "        attrs['HistoNameUp'] = _make_hist_name(\n            channelname, samplename, modifierspec['name'], suffix='High'\n        )"),
+  (WX, "_export_root_histogram(attrs['HistoNameHigh'], modifierspec['data']['hi_data'])", "_export_root_histogram(attrs['HistoNameUp'], modifierspec['data']['hi_data'])"))
+V("C18", "staterror-absolute", "fire", "C18.R2", "StatError histogram written absolute",
+  (WX, "            np.divide(\n                modifierspec['data'],\n                sampledata,\n                out=np.zeros_like(sampledata),\n                where=np.asarray(sampledata) != 0,\n                dtype='float',\n            ).tolist(),", "            np.asarray(modifierspec['data'], dtype='float').tolist(),"))
+V("C18", "shapesys-reader-no-multiply", "fire", "C18.R2", "reader keeps ShapeSys relative",
+  (RX, "'data': [a * b for a, b in zip(data, shapesys_data)],", "'data': [b for a, b in zip(data, shapesys_data)],"))
+V("C18", "normsys-hi-lo-swapped", "fire", "C18.R2", "writer stores lo under High",
+  (WX, "        attrs['High'] = str(modifierspec['data']['hi'])\n        attrs['Low'] = str(modifierspec['data']['lo'])", "        attrs['High'] = str(modifierspec['data']['lo'])\n        attrs['Low'] = str(modifierspec['data']['hi'])"))
+V("C18", "prefix-changed", "fire", "C18.R3", "writer uses gamma_ for normsys constants",
+  (WX, "        'normsys': 'alpha_',", "        'normsys': 'gamma_',"))
+V("C18", "handle-after-with", "fire", "C18.R4", "a channel is built after the ROOT file was closed",
+  (WX, "    # need information about modifier types to get the right prefix in measurement\n", "    build_data(spec.get('observations'), spec['channels'][0]['name'])\n    # need information about modifier types to get the right prefix in measurement\n"))
+
+# ------------------------------------------------------------------ C20
+V("C20", "foreign-exception", "fire", "C20.R1", "builder raises ValueError",
+  (MD + "shapesys.py", "                    raise InvalidModifier(\n                        f\"The '{sample_name}' sample {_modifier_type} modifier\"", "                    raise ValueError(\n                        f\"The '{sample_name}' sample {_modifier_type} modifier\""))
+V("C20", "new-assert", "fire", "C20.R1", "sample length check turned into an assert",
+  (PDFF, "        if not len(nom) == self.config.channel_nbins[channel]:\n            raise exceptions.InvalidModel(\n                f'expected {self.config.channel_nbins[channel]} size sample data but got {len(nom)}'\n            )", "        assert len(nom) == self.config.channel_nbins[channel]"))
+V("C20", "param-dup-unguarded", "fire", "C20.R2", "duplicate parameter configs no longer refused",
+  (PDFF, "        if parameter['name'] in _paramsets_user_configs:\n            raise exceptions.InvalidModel(\n                f\"Multiple parameter configurations for {parameter['name']} were found.\"\n            )\n", ""))
+V("C20", "histosys-length-check-removed", "fire", "C20.R4", "histosys loses its bin-count check",
+  (MD + "histosys.py", "                if (\n                    not len(sample[\"data\"][\"nom_data\"])\n                    == len(sample[\"data\"][\"lo_data\"])\n                    == len(sample[\"data\"][\"hi_data\"])\n                ):", "                if False:"))
+V("C20", "setpoi-unchecked", "fire", "C20.R6", "set_poi accepts undeclared names",
+  (PDFF, "        if name not in self.parameters:\n            raise exceptions.InvalidModel(\n                f\"The parameter of interest '{name:s}' cannot be fit as it is not declared in the model specification.\"\n            )\n", ""))
+V("C20", "normsys-shared-data-dependent", "fire", "C20.R3", "normsys requirement made data dependent while registered first-wins",
+  (MD + "normsys.py", "        'inits': (0.0,),\n        'bounds': ((-5.0, 5.0),),\n        'fixed': False,\n        'auxdata': (0.0,),\n    }\n\n\nclass normsys_builder", "        'inits': (0.0,),\n        'bounds': ((-5.0 * max(1.0, modifier_data['hi']), 5.0),),\n        'fixed': False,\n        'auxdata': (0.0,),\n    }\n\n\nclass normsys_builder"))
